@@ -150,7 +150,8 @@ class ObjectImpl(ClassImpl):
         return self.Q(q) ** n
 
 
-OBJ_IDENT = ['assoc', 'distrib_left', 'distrib_right', 'norm_mult', 'conj_reverse', 'q_conjq', 'pow', 'matrix_form', 'inner_dot', 'pow_prod', 'neg_prod']
+OBJ_IDENT = ['assoc', 'distrib_left', 'distrib_right', 'norm_mult', 'conj_reverse', 'q_conjq', 'pow', 'matrix_form', 'inner_dot', 'pow_prod', 'neg_prod',
+             'iadd_distrib', 'imul_chain', 'imul_scalar', 'isub_add']
 IMPLS = {'base': BaseImpl(), 'class': ClassImpl(), 'class:objects': ObjectImpl(), 'class:int32': NarrowImpl(np.int32), 'class:int16': NarrowImpl(np.int16), 'class:float32': NarrowImpl(np.float32), 'class:int8': NarrowImpl(np.int8)}
 NARROW_IDENT = ['assoc', 'norm_mult', 'conj_reverse', 'q_conjq', 'matrix_form', 'inner_dot']      # (no + / -: NumPy adds in the narrow type)
 IDENT = ['assoc', 'distrib_left', 'distrib_right', 'norm_mult', 'conj_reverse', 'q_conjq', 'pow', 'matrix_form', 'inner_dot',
@@ -230,6 +231,29 @@ def run_num(ctx, p):
             ab = impl.mul(a, b)
             got, want, sc = impl.mul(ab, impl.conj(ab)), np.r_[(na * nb) ** 2, 0, 0, 0], (na * nb) ** 2
             refv = np.r_[(LD(na) * LD(nb)) ** 2, 0, 0, 0]
+        elif ident == 'iadd_distrib':
+            # the augmented operators are the plain ones: acc = ab; acc += ac is a(b + c)
+            acc = impl.mul(a, b)
+            acc += impl.mul(a, c)
+            got, want, sc = acc, impl.mul(a, impl.add(b, c)), na * (nb + nc)
+            refv = ref.qmul(a, LD(b) + LD(c))
+        elif ident == 'isub_add':
+            acc = impl.add(a, b)
+            acc -= impl.Q(b)
+            got, want, sc, refv = acc, a, na + nb, LD(a)
+        elif ident == 'imul_chain':
+            x = impl.Q(a)
+            x *= impl.Q(b)
+            x *= impl.Q(c)
+            got, want, sc = x, impl.mul(impl.mul(a, b), c), na * nb * nc
+            refv = ref.qmul(ref.qmul(a, b), c)
+        elif ident == 'imul_scalar':
+            # x *= k with a real k, then a further product: |(k a) b| = |k| |a| |b| and the value is k (a b)
+            kf = float(n) + 0.5
+            x = impl.Q(a)
+            x *= kf
+            got, want, sc = impl.mul(x, b), impl.mul(impl.mul(a, b), np.r_[kf, 0, 0, 0]), abs(kf) * na * nb
+            refv = LD(kf) * ref.qmul(a, b)
         elif ident == 'sub_add':
             if impl.name == 'class':
                 Q = impl.Q
